@@ -17,6 +17,10 @@ impl<T: Clone + Into<usize>> Reset for BondContainer<T> {
     fn reset(&mut self) {
         self.clear();
     }
+    #[cfg(qmc_verif)]
+    fn verif_is_clean(&self) -> bool {
+        self.keys.is_empty() && self.total_weight == 0. && self.map.iter().all(|m| m.is_none())
+    }
 }
 
 impl<T: Clone + Into<usize>> BondContainer<T> {
